@@ -122,6 +122,26 @@ fn cases(args: &Args, rng: &mut Rng) -> Vec<C12Case> {
         &[(0, 2, 20_000, 0), (0, 2, 30, 0), (0, 2, 40, 0)], "A.DATA.2.drop", (Some(5000), Some(1000)), vec![], false));
     v.push(mk("pr-with-reliable-sibling", vec![spec(2, Kind::RexUnord, true, 0), spec(1, Kind::RelOrd, true, 0)], vec![spec(2, Kind::RexUnord, true, 0), spec(1, Kind::RelOrd, true, 0)],
         &[(0, 2, 3000, 0), (0, 1, 50, 0), (0, 1, 60, 0)], "A.DATA.1.drop", (Some(1000), Some(5000)), vec![], false));
+    // in-band channels whose DCEP OPEN does not fit one DATA chunk (label + protocol >= 1161 bytes), next to a negotiated sibling
+    for (i, (ll, pl)) in [(1200usize, 0usize), (1150, 0), (600, 600), (3000, 10), (20_000, 2000)].iter().enumerate() {
+        let mut c = mk(&format!("dcep-long-label{i}"), vec![spec(2, Kind::RelOrd, false, 0), spec(1, Kind::RelOrd, true, 0), spec(4, Kind::RelUnord, false, 0)], vec![spec(1, Kind::RelOrd, true, 0)],
+            &[(0, 1, 50, 0), (0, 2, 70, 0), (0, 1, 60, 0), (1, 2, 30, 0), (0, 4, 2000, 0), (1, 1, 9, 0)], if i % 2 == 0 { "-" } else { "A.DATA.1.drop+A.DATA.3.dup" }, (None, None), vec![], false);
+        c.case.chans[0][0].label = "L".repeat(*ll);
+        c.case.chans[0][0].protocol = "p".repeat(*pl);
+        c.case.chans[0][2].label = format!("é{}", "x".repeat(*ll / 2));
+        v.push(c);
+    }
+    // a label longer than the 16-bit DCEP length field (multi-byte characters: the truncated length cuts one in two)
+    {
+        let mut c = mk("dcep-huge-label", vec![spec(2, Kind::RelOrd, false, 0), spec(1, Kind::RelOrd, true, 0)], vec![spec(1, Kind::RelOrd, true, 0)],
+            &[(0, 1, 50, 0), (0, 1, 60, 0), (1, 1, 9, 0)], "-", (None, None), vec![], false);
+        c.case.chans[0][0].label = "日".repeat(22_000);
+        v.push(c);
+        let mut c = mk("dcep-huge-label-ascii", vec![spec(2, Kind::RelOrd, false, 0), spec(1, Kind::RelOrd, true, 0)], vec![spec(1, Kind::RelOrd, true, 0)],
+            &[(0, 1, 50, 0), (0, 1, 60, 0), (1, 1, 9, 0)], "-", (None, None), vec![], false);
+        c.case.chans[0][0].label = "L".repeat(70_000);
+        v.push(c);
+    }
     // FORWARD-TSN lost together with the chunk it skips; FORWARD-TSN across the TSN wrap (initial TSN 0)
     v.push(mk("pr-forward-tsn-lost", vec![spec(2, Kind::RexUnord, true, 0), spec(1, Kind::RelOrd, true, 0)], vec![spec(2, Kind::RexUnord, true, 0), spec(1, Kind::RelOrd, true, 0)],
         &[(0, 2, 100, 0), (0, 1, 50, 0), (0, 1, 60, 0)], "A.DATA.1.drop", (Some(7000), Some(5000)), vec![], false));
@@ -219,13 +239,24 @@ fn oracle(c: &Case, o: &Outcome) -> Vec<(String, String)> {
             if closes > 1 { fails.push(("close:more-than-once".into(), format!("{who}: {closes} Close events"))); }
         }
     }
-    // in-band channels appear at the peer with the creator's parameters
+    // in-band channels: opened at the creator => present at the peer with the creator's parameters;
+    // and they do open (DCEP cannot carry a label / protocol longer than 65535 bytes: those must never open)
     for side in 0..2 {
         for ch in c.chans[side].iter().filter(|c| !c.negotiated) {
-            match o.chans_final[1 - side].iter().find(|f| f.id == ch.id) {
-                None => if o.connected { fails.push(("dcep:channel-missing-at-peer".into(), format!("ch{} created by {}", ch.id, ["A", "B"][side]))); },
+            let creator_open = o.chans_final[side].iter().any(|f| f.id == ch.id && f.state != 0);
+            let carriable = ch.label.len() <= 65_535 && ch.protocol.len() <= 65_535;
+            let at_peer = o.chans_final[1 - side].iter().find(|f| f.id == ch.id);
+            if !carriable {
+                if creator_open || at_peer.is_some() { fails.push(("dcep:uncarriable-channel-opened".into(), format!("ch{}: label {} bytes", ch.id, ch.label.len()))); }
+                continue;
+            }
+            let closed = o.snaps.iter().any(|s| s.state == SctpState::Closed);
+            if o.connected && !closed && !creator_open { fails.push(("dcep:channel-never-opened".into(), format!("ch{} created by {} is still Connecting after {} ms", ch.id, ["A", "B"][side], o.elapsed_ms))); }
+            match at_peer {
+                None => if creator_open { fails.push(("dcep:channel-missing-at-peer".into(), format!("ch{} created by {}", ch.id, ["A", "B"][side]))); },
                 Some(f) => if f.label != ch.label || f.protocol != ch.protocol || f.ordered != ch.ordered || f.max_retransmits != ch.max_retransmits || f.max_lifetime != ch.max_lifetime {
-                    fails.push(("dcep:parameters-differ-at-peer".into(), format!("ch{}: {:?} vs {:?}", ch.id, f, ch)));
+                    let show = |s: &str| if s.len() > 40 { format!("{}…({} bytes)", &s[..s.char_indices().nth(20).map(|x| x.0).unwrap_or(0)], s.len()) } else { s.to_string() };
+                    fails.push(("dcep:parameters-differ-at-peer".into(), format!("ch{}: label {} vs {}, ordered {} vs {}, rexmit {:?} vs {:?}, lifetime {:?} vs {:?}", ch.id, show(&f.label), show(&ch.label), f.ordered, ch.ordered, f.max_retransmits, ch.max_retransmits, f.max_lifetime, ch.max_lifetime)));
                 }
             }
         }
